@@ -246,6 +246,17 @@ def selftest():
         bad, ext, nev, _ = sc.validate(ck, PID, [s], {"clean": mut(list(ev))}, "selftest_" + name)
         results[name] = any(b["rule"] == rule for b in bad)
         print(f"selftest: corrupted trace ({name}) rejected by {rule}:", results[name])
+    # set-level form of AckedOnlyIfCovered: a SACK effect that removes a chunk no processed SACK covers
+    s2 = sc.scenario("lossy", [sc.F("A", "DATA", 1, "drop", t=1)], [sc.chan(1)], sc.basic_workload(random.Random(2)))
+    by2 = sc.run_scenarios(ck, [s2], "selftest2", nproc=1)
+    ev2 = by2["lossy"]
+    i_fx = next(i for i, e in enumerate(ev2) if e["comp"] == "sctp" and e["ev"] == "sackfx" and e["inst"] == "A" and e["removed"])
+    fx = dict(ev2[i_fx], removed=ev2[i_fx]["removed"] + [(max(ev2[i_fx]["removed"]) + 1) & 0xFFFFFFFF])
+    bad, _, _, _ = sc.validate(ck, PID, [s2], {"lossy": ev2[:i_fx] + [fx] + ev2[i_fx + 1:]}, "selftest_sackfx")
+    results["sack-effect-uncovered"] = any(b["rule"] == "AckedOnlyIfCovered" for b in bad)
+    print("selftest: corrupted trace (sack-effect-uncovered) rejected by AckedOnlyIfCovered:", results["sack-effect-uncovered"])
+    bad2, _, _, _ = sc.validate(ck, PID, [s2], by2, "selftest_clean2")
     bad, _, _, _ = sc.validate(ck, PID, [s], by, "selftest_clean")
+    bad = bad + bad2
     print("selftest: unmodified trace accepted:", not bad)
     raise SystemExit(0 if ok1 and all(results.values()) and not bad else 2)
